@@ -688,6 +688,16 @@ def run_job(job, tier):
     except Exception as e:
         return {"job": job, "status": "export_failed", "reason": f"{type(e).__name__}: {str(e)[:200]}"}
     problems = interface_problems(prog, model, leaves, shapes)
+    if problems:
+        # the interface of something ONNX Runtime refuses to load is undefined: that is C03's subject
+        try:
+            import onnxruntime as ort
+
+            so = ort.SessionOptions()
+            so.log_severity_level = 4
+            ort.InferenceSession(model.SerializeToString(), so, providers=["CPUExecutionProvider"])
+        except Exception as e:
+            return {"job": job, "status": "unloadable_model", "reason": str(e)[:200]}
     return {"job": job, "status": "violation" if problems else "proved", "problems": problems, "inputs": [i.name for i in model.graph.input], "outputs": [o.name for o in model.graph.output]}
 
 
